@@ -159,6 +159,59 @@ fn build_small(words: &[String]) -> (MutableDictionary, FstDictionary) {
     (m, f)
 }
 
+/// Constructed dictionaries (also with typographic apostrophes in the *stored* words, as a user
+/// dictionary written by an editor has them): the mutable back-end, the FST built from it and
+/// merged dictionaries around either must answer every query alike.
+pub fn test_small_backends(c: &MergedCase, ctx: &mut CaseCtx) -> Result<(), String> {
+    let words: Vec<String> = c.children.iter().flatten().cloned().collect();
+    if words.is_empty() {
+        return Ok(());
+    }
+    let (m, f) = build_small(&words);
+    let (m, f) = (Arc::new(m), Arc::new(f));
+    let mut mm = MergedDictionary::new();
+    mm.add_dictionary(m.clone());
+    let mut mf = MergedDictionary::new();
+    mf.add_dictionary(f.clone());
+    let stored_typographic = words.iter().any(|w| w.contains(['’', '‘', '＇']));
+    ctx.class_if(stored_typographic, "stored_word_with_typographic_apostrophe");
+    let mut queries: Vec<String> = vec![c.query.clone()];
+    for w in &words {
+        queries.push(w.clone());
+        queries.push(w.replace(['’', '‘', '＇'], "'"));
+        queries.push(w.replace('\'', "’"));
+        queries.push(w.to_lowercase());
+    }
+    queries.sort();
+    queries.dedup();
+    for q in &queries {
+        let qc = chars(q);
+        let reference = answers(&*m, &qc);
+        if reference.0 && stored_typographic {
+            ctx.nontrivial(&(q, &words));
+        }
+        let named: [(&str, &dyn Dictionary); 3] = [("FstDictionary built from it", &*f), ("Merged[mutable]", &mm), ("Merged[fst]", &mf)];
+        for (name, d) in named {
+            let got = answers(d, &qc);
+            if got != reference {
+                return Err(format!(
+                    "dictionary {:?}, query {q:?}: MutableDictionary answers (contains={}, exact={}, cap={:?}), {name} answers (contains={}, exact={}, cap={:?}){}",
+                    words, reference.0, reference.1, reference.3, got.0, got.1, got.3,
+                    if got.2 != reference.2 { "; metadata differs" } else { "" }
+                ));
+            }
+            let st = answers_str(d, q);
+            if (st.0, st.1) != (reference.0, reference.1) {
+                return Err(format!(
+                    "dictionary {:?}, query {q:?}: {name} *_str variants answer (contains={}, exact={}), MutableDictionary (contains={}, exact={})",
+                    words, st.0, st.1, reference.0, reference.1
+                ));
+            }
+        }
+    }
+    Ok(())
+}
+
 fn check_fuzzy_results(
     name: &str,
     d: &dyn Dictionary,
@@ -420,7 +473,7 @@ fn small_word() -> BoxedStrategy<String> {
 }
 
 pub fn run(run: &mut Run) {
-    run.rule = "(a) curated FST / mutable / Merged[fst] / Merged[mutable,fst]: queries = dictionary words re-cased 5 ways, one-edit variants, apostrophe variants, unicode runs, empty, long (<=255): membership, exact membership, metadata, canonical spelling and all *_str twins must agree. (b) fuzzy: every dictionary of <=2 (thorough 3) words of length <=2 over {a,b,B,'} (built the way callers build them: MutableDictionary, then FstDictionary::from) x every query of length <=3 x bound 0..3 x cap {1,2,100}, random larger dictionaries, and the curated dictionary with brute-force Levenshtein as reference. (d) Merged of 1-3 random children = union, first child wins. Non-trivial = query is not an entry (case/edit variant) and the dictionary has >=2 entries.".into();
+    run.rule = "(a) curated FST / mutable / Merged[fst] / Merged[mutable,fst]: queries = dictionary words re-cased 5 ways, one-edit variants, apostrophe variants, unicode runs, empty, long (<=255): membership, exact membership, metadata, canonical spelling and all *_str twins must agree. (b) fuzzy: every dictionary of <=2 (thorough 3) words of length <=2 over {a,b,B,'} (built the way callers build them: MutableDictionary, then FstDictionary::from) x every query of length <=3 x bound 0..3 x cap {1,2,100}, random larger dictionaries, and the curated dictionary with brute-force Levenshtein as reference. (c) small_backends_agree: random dictionaries of 1-4 words over {a,b,B,é,t,s,',’,‘} (typographic apostrophes also in the stored words) as MutableDictionary, the FstDictionary built from it, Merged[mutable] and Merged[fst]: all answers agree for every stored word, its apostrophe and case variants and a random query. (d) Merged of 1-3 random children = union, first child wins. Non-trivial = query is not an entry (case/edit variant) and the dictionary has >=2 entries.".into();
 
     let n = run.n(50_000, 2_000_000);
     run.prop("curated_backends_agree", n, curated_query, test_curated_query);
@@ -518,6 +571,24 @@ pub fn run(run: &mut Run) {
     );
     run.require_class("fuzzy_curated", "lower_case_query", (n / 3) as u64);
 
+    let n = run.n(20_000, 500_000);
+    run.prop(
+        "small_backends_agree",
+        n,
+        || {
+            let w = proptest::collection::vec(
+                prop_oneof![6 => g::sel(&['a', 'b', 'B', 'é', 't', 's']), 2 => Just('\''), 2 => Just('’'), 1 => Just('‘')],
+                1..6,
+            )
+            .prop_map(|v| v.into_iter().collect::<String>());
+            (proptest::collection::vec(w.clone(), 1..5), w)
+                .prop_map(|(words, query)| MergedCase { children: vec![words], query })
+                .boxed()
+        },
+        test_small_backends,
+    );
+    run.require_class("small_backends_agree", "stored_word_with_typographic_apostrophe", (n / 5) as u64);
+
     let n = run.n(30_000, 1_000_000);
     run.prop(
         "merged_is_union",
@@ -570,6 +641,10 @@ pub fn replay(check: &str, case: Value, _run: &mut Run) -> Result<(), String> {
         "curated_backends_agree" => {
             let c: String = serde_json::from_value(case).map_err(|e| e.to_string())?;
             test_curated_query(&c, &mut ctx)
+        }
+        "small_backends_agree" => {
+            let c: MergedCase = serde_json::from_value(case).map_err(|e| e.to_string())?;
+            test_small_backends(&c, &mut ctx)
         }
         "merged_is_union" => {
             let c: MergedCase = serde_json::from_value(case).map_err(|e| e.to_string())?;
